@@ -6,13 +6,18 @@ import glob, json, os, shutil, sys
 ROOT = os.path.dirname(os.path.dirname(os.path.abspath(__file__)))
 idx = json.load(open(os.path.join(ROOT, "seeded", "index.json")))
 conf = {}
-for f in glob.glob("/tmp/mut/confirm*.log") + glob.glob("/tmp/mut2/confirm*.log") + glob.glob("/tmp/mut3/confirm*.log"):
+for f in sorted(glob.glob(os.path.join(ROOT, "seeded", "confirm", "*.log"))) + glob.glob("/tmp/mut/confirm*.log") + glob.glob("/tmp/mut2/confirm*.log") + glob.glob("/tmp/mut3/confirm*.log"):
     for line in open(f):
         line = line.strip()
         if line.startswith("{"):
             try:
                 j = json.loads(line)
-                conf[j["id"]] = j
+                # several runs of the same confirmation may exist (a hung flaky test, a demo that needed its
+                # run.sh): a complete confirmation is never replaced by an incomplete one
+                good = lambda c: (c.get("demo_clean_exit") == 0 and c.get("demo_mutant_exit") not in (0, None)
+                                  and c.get("suite_passed", 0) >= 60 and c.get("suite_failed_nonflaky", 1) == 0)
+                if j["id"] not in conf or good(j) or not good(conf[j["id"]]):
+                    conf[j["id"]] = j
             except Exception:
                 pass
 for key, e in idx.items():
